@@ -276,18 +276,21 @@ Proof.
 Qed.
 
 (* the documented factor (u_exact / max(tf_l, tf_r, minimum_u))^weight *)
-Lemma tf_adj_formula pow tfs ls l cvv k tfl tfr l' r' :
+Lemma tf_adj_formula pow tfs ls l cvv k tfl tfr l' r' u :
   tf_active l cvv = true -> tf_col l = Some k -> tfs k = (tfl, tfr) ->
   coalesce2 tfl tfr = Some l' -> coalesce2 tfr tfl = Some r' ->
   0 <= l' -> 0 <= r' -> 0 <= tf_min_u l ->
-  exists d, d == Qmax (Qmax l' r') (tf_min_u l) /\
-            tf_adj pow tfs ls l cvv = pow (u_exact_or ls l / d) (tf_w l).
+  0 < Qmax (Qmax l' r') (tf_min_u l) ->            (* no division by zero *)
+  u_exact ls l = Some u ->                          (* a supplier exists: otherwise the code raises ValueError *)
+  exists d, d == Qmax (Qmax l' r') (tf_min_u l) /\ 0 < d /\
+            tf_adj pow tfs ls l cvv = pow (u / d) (tf_w l).
 Proof.
-  intros Ha Hk Ht Hl Hr Pl Pr Pm. unfold tf_active in Ha. rewrite Hk in Ha.
+  intros Ha Hk Ht Hl Hr Pl Pr Pm Pd Hu. unfold tf_active in Ha. rewrite Hk in Ha.
   apply andb_prop in Ha. destruct Ha as [Ha He]. apply andb_prop in Ha. destruct Ha as [Ha Hw].
   apply andb_prop in Ha. destruct Ha as [Hc _].
   destruct (tf_divisor_max _ _ _ _ _ Hl Hr Pl Pr Pm) as (d & Hd & Hm). exists d. split; auto.
-  unfold tf_adj. rewrite Hk, Ht, Hl, Hd.
+  split; [rewrite Hm; exact Pd|].
+  unfold tf_adj, u_exact_or. rewrite Hk, Ht, Hl, Hd, Hu.
   destruct (Z.eqb cvv (-1)); [discriminate|]. destruct (Qeq_bool (tf_w l) 0); [discriminate|].
   destruct (is_else l); [discriminate|]. reflexivity.
 Qed.
@@ -987,15 +990,62 @@ Lemma tf_adj_formula_supplier pow tfs ls l cvv k tfl tfr l' r' i s :
   tf_active l cvv = true -> tf_col l = Some k -> tfs k = (tfl, tfr) ->
   coalesce2 tfl tfr = Some l' -> coalesce2 tfr tfl = Some r' ->
   0 <= l' -> 0 <= r' -> 0 <= tf_min_u l ->
+  0 < Qmax (Qmax l' r') (tf_min_u l) ->
   disable_exact_detect l = false ->
   nth_error ls i = Some s -> exact_cols s = [k] ->
   (forall j y, (j < i)%nat -> nth_error ls j = Some y -> exact_cols y <> [k]) ->
-  exists d, d == Qmax (Qmax l' r') (tf_min_u l) /\
+  exists d, d == Qmax (Qmax l' r') (tf_min_u l) /\ 0 < d /\
             tf_adj pow tfs ls l cvv = pow (lu s / d) (tf_w l).
 Proof.
-  intros Ha Hk Ht Hl Hr Pl Pr Pm Hd Hn He Hb.
-  destruct (tf_adj_formula pow tfs ls l cvv k tfl tfr l' r' Ha Hk Ht Hl Hr Pl Pr Pm) as (d & Hm & Hv).
-  exists d. split; auto. rewrite Hv. unfold u_exact_or.
+  intros Ha Hk Ht Hl Hr Pl Pr Pm Pd Hd Hn He Hb.
   assert (Hu : u_exact ls l = Some (lu s)) by (apply (u_exact_supplier ls l k (lu s) Hd Hk); exists i, s; auto).
-  rewrite Hu. reflexivity.
+  exact (tf_adj_formula pow tfs ls l cvv k tfl tfr l' r' (lu s) Ha Hk Ht Hl Hr Pl Pr Pm Pd Hu).
+Qed.
+
+(* ------------------------------------------------------------------------------------ *)
+(* waterfall: the bars the chart code builds (prior bar, then per comparison the Bayes-factor bar and, when the
+   comparison has TF adjustments, the TF bar) and their log2 adding up to log2 of the score *)
+Fixpoint fin_vals (l : list xq) : option (list Q) :=
+  match l with
+  | [] => Some []
+  | Fin q :: t => option_map (cons q) (fin_vals t)
+  | Inf :: _ => None
+  end.
+
+Lemma fold_left_xmul_fin_vals ts qs a :
+  fin_vals ts = Some qs -> fold_left xmul ts (Fin a) = Fin (fold_left Qmult qs a).
+Proof.
+  revert qs a. induction ts as [|x t IH]; intros qs a H; cbn in H.
+  - injection H as <-. reflexivity.
+  - destruct x as [q|]; [|discriminate]. destruct (fin_vals t) as [r|] eqn:E; [|discriminate].
+    injection H as <-. cbn. apply IH; auto.
+Qed.
+
+Lemma Q2R_fold_mult qs a : Q2R (fold_left Qmult qs a) = (Q2R a * prodR (map Q2R qs))%R.
+Proof.
+  revert a. induction qs as [|q t IH]; intros a; cbn.
+  - ring.
+  - rewrite IH, Q2R_mult. ring.
+Qed.
+
+Lemma Forall_Q2R_pos qs : Forall (fun q => 0 < q) qs -> Forall (fun x => (0 < x)%R) (map Q2R qs).
+Proof.
+  induction 1; cbn; constructor; auto.
+  replace 0%R with (Q2R 0) by (unfold Q2R; cbn; lra). apply Qlt_Rlt; auto.
+Qed.
+
+(* the chart's bars add up: sum of log2(bar) over prior + per-comparison bars = log2 of the final bar = match weight *)
+Lemma waterfall_sums_to_score p cs qs :
+  fin_vals (waterfall_records p cs) = Some qs -> Forall (fun q => 0 < q) qs ->
+  exists s, waterfall_final p cs = Fin s /\ 0 < s /\ sum_log2 (map Q2R qs) = log2R (Q2R s).
+Proof.
+  unfold waterfall_records, waterfall_final, score_of_cols, product. intros H Hpos.
+  cbn [fin_vals] in H. destruct (prior_odds p) as [a|]; [|discriminate].
+  destruct (fin_vals (all_terms cs)) as [qs'|] eqn:E; [|discriminate]. injection H as <-.
+  exists (fold_left Qmult qs' a). rewrite (fold_left_xmul_fin_vals _ _ _ E).
+  pose proof (Forall_Q2R_pos _ Hpos) as HR. cbn [map] in HR.
+  assert (Hs : Q2R (fold_left Qmult qs' a) = prodR (map Q2R (a :: qs'))) by (rewrite Q2R_fold_mult; reflexivity).
+  split; [reflexivity|]. split.
+  - apply Rlt_Qlt. replace (Q2R 0) with 0%R by (unfold Q2R; cbn; lra). rewrite Hs. apply prodR_pos; auto.
+  - rewrite Hs. apply waterfall_adds_up; auto.
 Qed.
